@@ -39,7 +39,7 @@ ASSUMPTIONS = [
     "bandits (NeuralUCB/TS): 'greedy action' is compared through the actor's predictions because get_action mutates sigma_inv",
 ]
 REQUIRED_COUNTERS = ["copy_faithful_leaves", "alias_pairs", "independence_probes", "same_update_checks"]
-CASE_TIMEOUT_S = 300
+CASE_TIMEOUT_S = 1500
 
 
 def preload():
